@@ -155,6 +155,37 @@ def ensure_facts(features=""):
                 last_err = None
                 break
             last_err = "fact file for crate %s was not written by this run" % missing[0]
+        # a body whose MIR was taken by an earlier query of the same compiler session (an async helper type-checked
+        # through its caller first) is captured by running once more with that body first in line
+        first = []
+        for extra in range(3):
+            if last_err:
+                break
+            skipped = []
+            for c in CRATES:
+                try:
+                    with open(os.path.join(tmp, c + ".json")) as fh:
+                        tail = fh.read()[-20000:]
+                    i = tail.rfind('"stolen":[')
+                    if i >= 0:
+                        for ent in json.loads(tail[i + 9:tail.index("]", i) + 1]):
+                            if ent.endswith(" (SKIPPED)"):
+                                skipped.append(ent[:-len(" (SKIPPED)")])
+                except Exception:
+                    pass
+            if not skipped or set(skipped) <= set(first):
+                break
+            first = sorted(set(first) | set(skipped))
+            for d in glob.glob(os.path.join(target, "debug", ".fingerprint", "dropshot-*")) + \
+                    glob.glob(os.path.join(target, "debug", ".fingerprint", "dropshot_endpoint-*")):
+                shutil.rmtree(d, ignore_errors=True)
+            env["MIRFACTS_FIRST"] = ";".join(first)
+            t1 = time.time()
+            r = subprocess.run(cmd, cwd=repo, env=env, stdout=subprocess.PIPE, stderr=subprocess.STDOUT, text=True)
+            if r.returncode != 0:
+                shutil.rmtree(tmp, ignore_errors=True)
+                raise ExtractionError("cargo check failed on the current tree:\n" + r.stdout[-4000:])
+            info["reextracted_for_stolen_bodies"] = first
         if last_err:
             shutil.rmtree(tmp, ignore_errors=True)
             raise ExtractionError(last_err)
